@@ -68,7 +68,8 @@ ObsCb(o, ev) ==
       completing == IF sd = "q" THEN t.qcompleting ELSE t.scompleting
       flush == n \in BodyHooks /\ completing /\ ~mk
       ph == IF sd = "q" THEN t.q ELSE t.s
-      sticky == o.call.d \in {"req", "res"} /\ o.lastrc[o.call.d] \in {"STOP", "ERROR"}
+      \* (htp_connp_close re-opens a direction that reported STOP - see vStop in ObsRet - so after a close only ERROR is sticky)
+      sticky == o.call.d \in {"req", "res"} /\ (o.lastrc[o.call.d] = "ERROR" \/ (o.lastrc[o.call.d] = "STOP" /\ ~o.closed))
       vOrder == IF sd \in {"q", "s"} /\ n \notin {"request_file_data"} /\
                    (IF marker \/ flush THEN ph >= 6 ELSE r < ph)
                 THEN {V("C05:Order", n, i)} ELSE {}
@@ -79,7 +80,10 @@ ObsCb(o, ev) ==
       vBoth == IF n = "transaction_complete" /\ ~(ev.rp = COMPLETE /\ ev.sp = COMPLETE) THEN {V("C05:TxCompleteOnlyWhenBoth", n, i)} ELSE {}
       vAfterTx == IF t.tc > 0 /\ n # "transaction_complete" THEN {V("C05:NothingAfterTxComplete", n, i)} ELSE {}
       vDead == IF t.destroyed THEN {V("C05:CallbackTxIsLive", n, i)} ELSE {}
-      vSticky == IF sticky /\ sd \in {"q", "s", "t"} THEN {V("C09:NoCallbacksWhenSticky", n, i)} ELSE {}
+      \* htp_connp_close runs both directions once more: a direction that has reported ERROR stays failed there too and runs no parsing callbacks
+      \* (a direction that reported STOP is re-opened by the close - the weaker reading recorded in DESIGN.md 3.2 - so only ERROR is judged here)
+      closeSticky == o.call.k = "close" /\ ((sd = "q" /\ o.lastrc.req = "ERROR") \/ (sd = "s" /\ o.lastrc.res = "ERROR"))
+      vSticky == IF (sticky /\ sd \in {"q", "s", "t"}) \/ closeSticky THEN {V("C09:NoCallbacksWhenSticky", n, i)} ELSE {}
       \* once a direction has reported TUNNEL no callback of that direction runs in a later DATA call (htp_connp_close
       \* still completes the open transaction: the weaker reading, see DESIGN.md 3.2)
       vTunnel == IF o.call.k # "close" /\ ((sd = "q" /\ o.tunnel.req) \/ (sd = "s" /\ o.tunnel.res)) THEN {V("C16:TunnelQuiet", n, i)} ELSE {}
